@@ -15,7 +15,9 @@ EXTENDS Integers, Sequences, TLC, Json
 CONSTANTS MaxArgs
 Families == {"print", "printf", "println"}
 Templates == {"empty", "plain", "one-verb", "two-verbs", "percent-literal", "trailing-newline"}
-ArgClasses == {"str", "str-with-verb", "str-trailing-nl", "int", "err", "nil", "stringer"}
+\* "nilptr-stringer" / "nilptr-err": typed nil pointers whose method would dereference the receiver (fmt prints "<nil>");
+\* "fmt-stringer": a Stringer that also implements fmt.Formatter (fmt uses Format, not String)
+ArgClasses == {"str", "str-with-verb", "str-trailing-nl", "int", "err", "nil", "stringer", "nilptr-stringer", "nilptr-err", "fmt-stringer"}
 ArgLists == UNION {[1..n -> ArgClasses] : n \in 0..MaxArgs}
 
 VARIABLES fam, tmpl, args, rule, want
